@@ -30,7 +30,10 @@ func c18Laws(c *ctx) {
 			try(func() {
 				l := s.GetLunar()
 				rows = append(rows, []interface{}{s.GetYear(), s.GetMonth(), s.GetDay(), l.GetXiu(), l.GetWeek(), l.GetDayZhiIndex(), l.GetMonthZhiIndex(),
-					l.GetZhiXing(), l.GetDayChong(), l.GetTimeChong(), l.GetTimeZhiIndex(), s.GetWeek()})
+					l.GetZhiXing(), l.GetDayChong(), l.GetTimeChong(), l.GetTimeZhiIndex(), s.GetWeek(),
+					// extension (classical rules behind table-driven attributes; EXT.almanac.*)
+					l.GetDayTianShen(), l.GetDayTianShenType(), l.GetDayTianShenLuck(), l.GetDaySha(), l.GetLiuYao(), l.GetMonth(), l.GetDay(),
+					l.GetDayGanIndex(), l.GetDayPositionXi(), l.GetDayChongGan()})
 			})
 		})
 		c.emit(obj{"ev": "C18Laws", "y": y, "rows": rows})
